@@ -97,6 +97,9 @@ type c24Run struct {
 	mon      *monitor
 	bounds   []int64 // bounds[n] = size of the primary log after n entries of the history
 	pend     map[int]*pendingCall
+	rctl     *gateCtl    // gate of the current replica object (in-flight entries)
+	inflight *gateTicket // the parked goroutine holding an entry in flight
+	links    int
 	drift    bool // a call completed in one piece where the model has two phases
 	cov      func(string)
 	nsSeen   map[string]bool
@@ -128,12 +131,31 @@ func (r *c24Run) closePrimary() error {
 
 func (r *c24Run) openReplica() error {
 	s := newTranslateFile(filepath.Join(r.dir, "replica"))
-	s.SetPrimaryStore("primary", r.gp.link())
+	r.links++
+	s.SetPrimaryStore(fmt.Sprintf("primary-%d", r.links), r.gp.link())
 	if err := s.Open(); err != nil {
 		return err
 	}
+	if r.replica != nil {
+		replGates.Delete(r.replica)
+	}
 	r.replica = s
+	r.rctl = &gateCtl{arrivals: make(chan *gateTicket, 8), passthrough: 1}
+	replGates.Store(s, r.rctl)
 	return nil
+}
+
+// waitQuiet polls the replica's log size for a short while after an in-flight entry of
+// a dropped stream was released and reports whether it grew (the entry was appended).
+func (r *c24Run) waitQuiet(from int64) (int64, bool) {
+	deadline := time.Now().Add(60 * time.Millisecond)
+	for time.Now().Before(deadline) {
+		if sz := pilosa.VerifTranslateSize(r.replica); sz != from {
+			return sz, true
+		}
+		time.Sleep(500 * time.Microsecond)
+	}
+	return from, false
 }
 
 // direct runs a translate call on the primary that the model treats as one step; mode 1:
@@ -216,13 +238,29 @@ func (r *c24Run) checkStore(s *pilosa.TranslateFile, who string, kmap map[string
 // waitReplicaAt waits until the replica has written and applied the log up to off.
 func (r *c24Run) waitReplicaAt(off int64) bool {
 	deadline := time.Now().Add(waitMax)
-	for pilosa.VerifTranslateSize(r.replica) != off {
-		if time.Now().After(deadline) {
+	for {
+		sz := pilosa.VerifTranslateSize(r.replica)
+		if sz == off {
+			return true
+		}
+		if sz > off || time.Now().After(deadline) {
 			return false
 		}
 		time.Sleep(200 * time.Microsecond)
 	}
-	return true
+}
+
+// replicaAt is waitReplicaAt as a step verdict.
+func (r *c24Run) replicaAt(i int, op string, off int64) *stepFail {
+	if r.waitReplicaAt(off) {
+		return nil
+	}
+	sz := pilosa.VerifTranslateSize(r.replica)
+	sym, what := "replica_stalled", "only"
+	if sz > off {
+		sym, what = "replica_log_longer", "already"
+	}
+	return &stepFail{Step: i, Op: op, Symptom: sym, Detail: fmt.Sprintf("the replica's log should end at byte %d (boundaries of the primary's log %v), it holds %s %d bytes", off, r.bounds, what, sz)}
 }
 
 func (r *c24Run) expectRequest(i int, op string, want int64) *stepFail {
@@ -248,6 +286,12 @@ func runC24(c *c24Case, cov func(string)) (fail *stepFail, err error) {
 		for _, p := range r.pend {
 			close(p.ticket.release)
 			<-p.done
+		}
+		if r.rctl != nil {
+			atomic.StoreInt32(&r.rctl.passthrough, 1)
+		}
+		if r.inflight != nil {
+			close(r.inflight.release)
 		}
 		if r.replica != nil {
 			r.replica.Close()
@@ -400,8 +444,52 @@ func runC24(c *c24Case, cov func(string)) (fail *stepFail, err error) {
 		case "RApply":
 			n := behav.ToInt(post["rlen"])
 			r.gp.setLimit(r.bounds[n])
-			if !r.waitReplicaAt(r.bounds[n]) {
-				return bad(i, op, "replica_stalled", "the replica holds %d bytes, entry %d of the primary's log ends at byte %d", pilosa.VerifTranslateSize(r.replica), n, r.bounds[n]), nil
+			if f := r.replicaAt(i, op, r.bounds[n]); f != nil {
+				return f, nil
+			}
+		case "RRecv":
+			// the next entry is read off the stream and held before the replica's lock
+			n := behav.ToInt(post["infl"])
+			atomic.StoreInt32(&r.rctl.passthrough, 0)
+			r.gp.setLimit(r.bounds[n])
+			select {
+			case t := <-r.rctl.arrivals:
+				r.inflight = t
+				cov("entry_held_in_flight")
+			case <-time.After(waitMax):
+				return bad(i, op, "replica_stalled", "the replica did not read entry %d off the stream", n), nil
+			}
+		case "RApplyInfl":
+			if r.inflight == nil {
+				return nil, fmt.Errorf("step %d: no entry in flight", i)
+			}
+			atomic.StoreInt32(&r.rctl.passthrough, 1)
+			close(r.inflight.release)
+			r.inflight = nil
+			if f := r.replicaAt(i, op, r.bounds[behav.ToInt(post["rlen"])]); f != nil {
+				return f, nil
+			}
+		case "RReassign":
+			// the running replica is given a primary again (as on every change of cluster
+			// membership): the old stream ends, a new one must start at the boundary of what
+			// the replica holds; an entry of the old stream still in flight must not be
+			// appended (the new stream delivers it again)
+			n := st.Int("off")
+			before := pilosa.VerifTranslateSize(r.replica)
+			r.gp.setLimit(r.bounds[n])
+			r.links++
+			r.replica.SetPrimaryStore(fmt.Sprintf("primary-%d", r.links), r.gp.link())
+			if f := r.expectRequest(i, op, r.bounds[n]); f != nil {
+				return f, nil
+			}
+			if r.inflight != nil {
+				atomic.StoreInt32(&r.rctl.passthrough, 1)
+				close(r.inflight.release)
+				r.inflight = nil
+				if sz, grew := r.waitQuiet(before); grew {
+					return bad(i, op, "stale_entry_applied", "the entry in flight when the primary was re-assigned was appended to the replica's log (%d -> %d bytes) although the new stream, which started at byte %d, delivers it again", before, sz, r.bounds[n]), nil
+				}
+				cov("in_flight_entry_of_dropped_stream")
 			}
 		case "RStop":
 			if err := r.replica.Close(); err != nil {
@@ -502,8 +590,8 @@ func runC24(c *c24Case, cov func(string)) (fail *stepFail, err error) {
 				}
 			}
 			r.gp.setLimit(last)
-			if !r.waitReplicaAt(last) {
-				return bad(i, "FinalCatchUp", "replica_stalled", "the replica holds %d of %d bytes", pilosa.VerifTranslateSize(r.replica), last), nil
+			if f := r.replicaAt(i, "FinalCatchUp", last); f != nil {
+				return f, nil
 			}
 			if f := step("FinalCatchUp"); f != nil {
 				return f, nil
@@ -670,6 +758,14 @@ func runC24Free(r *c24Run, bad func(int, string, string, string, ...interface{})
 	return nil, nil
 }
 
+func opsOf(b behav.Behaviour) []string {
+	var out []string
+	for _, st := range b {
+		out = append(out, st.Str("op"))
+	}
+	return out
+}
+
 func shortIDs(ids []uint64) string {
 	if len(ids) > 12 {
 		return fmt.Sprintf("%v…(%d ids)", ids[:12], len(ids))
@@ -698,7 +794,19 @@ func TestC24(t *testing.T) {
 	}()
 	runOne := func(c *c24Case, cov func(string)) (f *stepFail, inconclusive string) {
 		var err error
-		pv, stack := behav.Protect(func() { f, err = runC24(c, cov) })
+		var pv interface{}
+		var stack string
+		finished := make(chan struct{})
+		go func() {
+			defer close(finished)
+			pv, stack = behav.Protect(func() { f, err = runC24(c, cov) })
+		}()
+		select {
+		case <-finished:
+		case <-time.After(4 * time.Minute):
+			// a store whose lock is never released again; the goroutine is abandoned
+			return nil, fmt.Sprintf("case did not finish within 4 minutes (a store is wedged?): profile %s, ops %v", c.Profile, opsOf(c.Beh))
+		}
 		if pv != nil {
 			if !behav.PanicInCode(stack) {
 				return nil, fmt.Sprintf("harness panic: %v\n%s", pv, firstLines(stack, 30))
